@@ -19,7 +19,7 @@ Your task: make a change to the *library code* in the worktree (not to tests) th
  (2) the existing tests of the affected crate(s) still pass unedited (`cargo test -p <crate> --offline`; run them), and
  (3) the breakage is NOT exposed by ordinary use at once: it must need something specific to manifest – a particular interleaving, a crash or fault at a particular point, a multi-step sequence of operations, an unusual input, or two cooperating sites that each look fine alone. Think of a realistic regression a maintainer could introduce (a refactoring slip, an "optimisation", an off-by-one on a boundary, a reordered await, a dropped re-check), not sabotage that any smoke test reveals.
 
-Also write a demonstration: a new test file or small program inside the worktree (e.g. an integration test under the crate's `tests/` directory, or a `#[cfg(test)]` module in a NEW file) that FAILS with your change and PASSES without it. Verify both directions yourself (use `git stash` / `git diff > /tmp/x.diff; git checkout -- <files>; ...` inside the worktree).
+Also write a demonstration: a new test file or small program inside the worktree (e.g. an integration test under the crate's `tests/` directory, or a `#[cfg(test)]` module in a NEW file) that FAILS with your change and PASSES without it. Verify both directions yourself (never use `git stash` – the stash is shared between all worktrees of the repository; use `git diff > /tmp/<your-id>.diff; git checkout -- <files>; ...; git apply /tmp/<your-id>.diff` inside the worktree).
 
 Deliver, inside the worktree:
  - `SEEDED/patch.diff`  : `git diff` of the library change only (must apply with `git apply` to a clean checkout of the same commit),
